@@ -32,7 +32,9 @@ echo "== demo with patch"
 run "bash '$SRC/demo/run.sh' '$WT'"; MUT=$?
 echo "mutated demo exit=$MUT"
 echo "RESULT name=$NAME clean_demo=$CLEAN build=$BUILD existing_tests=$TESTS mutated_demo=$MUT"
-if [ "$CLEAN" = 0 ] && [ "$BUILD" = 0 ] && [ "$TESTS" = 0 ] && [ "$MUT" != 0 ]; then
+if [ -n "${NOKEEP:-}" ]; then
+  echo "NOKEEP: result only"
+elif [ "$CLEAN" = 0 ] && [ "$BUILD" = 0 ] && [ "$TESTS" = 0 ] && [ "$MUT" != 0 ]; then
   mkdir -p /verif/seeded/$NAME && cp "$SRC/patch.diff" /verif/seeded/$NAME/ && rm -rf /verif/seeded/$NAME/demo && cp -r "$SRC/demo" /verif/seeded/$NAME/demo && cp "$SRC/meta.json" /verif/seeded/$NAME/agent_meta.json
   python3 - "$NAME" "$MODS" <<'PY'
 import json,sys,os
